@@ -298,3 +298,8 @@ pub proof fn lemma_pair_le_total_ordering()
     assert(vstd::relations::transitive(leq));
     assert(vstd::relations::strongly_connected(leq));
 }
+pub proof fn lemma_string_key_model()
+    ensures obeys_key_model::<String>()
+{
+    broadcast use axiom_string_key_model;
+}
